@@ -252,7 +252,7 @@ PROPS["C11"] = {
 }
 
 PROPS["C12"] = {
-    "claim": "HelpRequest::from_command on every argument token buffer of <= 6 (quick) / 8 (thorough) well-formed bytes, of exactly 0..4 bytes (quick) / up to 8 (thorough), for the name `help` and for another name: All iff `help` alone; Command(first value, rest) iff `help` + value; for other names Some iff an option before any `--` is --help or a cluster containing h",
+    "claim": "HelpRequest::from_command on every argument token buffer of exactly 0..4 bytes (quick) / up to 8 (thorough) of well-formed UTF-8, for the name `help` and for another name: All iff `help` alone; Command(first value, rest) iff `help` + value; for other names Some iff an option before any `--` is --help or a cluster containing h. Routing: process_input on 14 token-list templates never enters the handler for a help request. Content: the text printed for 18 help requests on derived enums and a command group (expanded by /repo's macros at every run) equals, byte for byte, text written by hand from the documented format",
     "assumptions": ["`help` followed directly by an option or `--` is left open by the statement"],
     "harnesses": [
     ] + [H("c12_help::c12_request_predicate_n%d" % n, bounds="every well-formed token buffer of exactly %d bytes, name in {help, led}" % n, tier=("both" if n <= 4 else "thorough"), timeout=1800, mem=5) for n in range(0, 7)] + [
@@ -287,7 +287,7 @@ PROPS["C13"] = {
 CHEAP = ["key_backspace", "key_forward", "key_back", "key_up", "key_down", "key_char1", "key_char2", "key_char3", "key_char4", "key_tab"]
 
 PROPS["C01"] = {
-    "claim": "Cli-level one-step induction: from ANY state satisfying CliInv (N=3,H=3 quick; N=4 thorough) no key other than Enter enters the handler; Enter enters it exactly once iff the line has a token and is not a help request, with exactly the reference tokens (name + classified arguments), leaves an empty line, records the text in the history and prints one fresh prompt on a new row; CliInv is re-established, so the claim covers edit histories of any length",
+    "claim": "Cli-level one-step induction from ANY state satisfying CliInv (N=3, H=3; N=4 in the thorough tier): no key other than Enter enters the handler and the editing keys leave exactly the ideal editor's / reference history's line; Enter (one instance per line length, history buffer 0) enters the handler exactly once iff the reference tokenizer finds a token and the line is not a help request, with exactly the reference command name (and, in the build without help, every classified argument), leaves an empty line and exactly one prompt after the last line feed; the history side of Enter from ANY history state; process_input routing on 14 token-list templates; process_byte == accept + per-key entry (glue); CliInv is re-established, so the claim covers edit histories of any length",
     "assumptions": CLI_ASSUME,
     # "the line as it stood after every insertion, deletion, cursor move, recall and completion":
     # the editing keys' ideal-editor / history assertions (tags C05, C10) are part of C01's claim
@@ -344,7 +344,7 @@ PROPS["C09"] = {
 SHOW_KEYS = ["show_backspace", "show_forward", "show_back", "show_up", "show_tab", "show_char1", "show_char2", "show_char3"]
 
 PROPS["C06"] = {
-    "claim": "coupling invariant Show(cli, terminal): with an ECMA-48 subset terminal emulator as the sink (printable scalars, CR, LF, CSI C/D/P/@/2K; anything else is an error), constructed so that it shows prompt + line with the cursor at the editor's cursor for an ARBITRARY CliInv state (N=3,H=3, three prompts incl. a multi-byte one), one step of every key (typed scalar of 1-3 bytes inside / at the end / rejected, Backspace, Left, Right, Up, Down, Tab, Enter with a handler that writes nothing / writes text / changes the prompt), Cli::write and Cli::set_prompt leaves the terminal showing prompt + line with the cursor at the editor's cursor again; by induction at every moment of every session",
+    "claim": "coupling invariant Show(cli, terminal): an ECMA-48 subset terminal emulator (printable scalars, CR, LF, CSI C/D/P/@/2K; anything else is an error) IS the sink of the real call and is constructed to show prompt + line with the cursor at the editor's cursor for an ARBITRARY CliInv state (N=3, H=3, three prompts incl. a multi-byte one): after one step of a typed scalar (1-3 bytes, inside / at the end / rejected), Backspace, Left, Right, Up, Down, Tab and Cli::set_prompt it shows prompt + line with the cursor at the editor's cursor again. For Enter (handler silent / writing / changing the prompt / both) and Cli::write the real call is shown to send exactly a specified byte transcript, and harness-side lemmas show that this transcript, interpreted by the emulator from ANY CliInv line/cursor/prompt, displays prompt + line with the cursor at the editor's cursor and exactly the expected line breaks; by induction at every moment of every session",
     "assumptions": CLI_ASSUME + [
         "every scalar has display width 1 (the property's own quantifier); DEL is excluded from lines and typed characters",
         "terminal width is larger than prompt + N + 2 cells (no wrapping)",
@@ -365,7 +365,7 @@ PROPS["C06"] = {
 FAIL_KEYS = ["fail_backspace", "fail_forward", "fail_back", "fail_up", "fail_down", "fail_char1", "fail_char2", "fail_tab"]
 
 PROPS["C14"] = {
-    "claim": "with a sink that fails at a SYMBOLIC call position (write and flush calls counted together; once or permanently), every Cli-level step from ANY CliInv state (N=3,H=3): the call returns Err iff the sink failed during it; editor and decoder are restored; the line is as before, as the key would have left it, or cleared; CliInv holds afterwards (so later input is decoded normally and a later Enter dispatches only typed text, by C01/C05 induction)",
+    "claim": "with a sink that fails at a SYMBOLIC call position (write and flush calls counted together; once or permanently), every Cli-level step from ANY CliInv state (N=3,H=3; Enter per line length with history buffer 0): the call returns Err iff the sink failed during it; editor and decoder are restored; the line is as before, as the key would have left it, or cleared; CliInv holds afterwards (so later input is decoded normally and a later Enter dispatches only typed text, by C01/C05 induction); the same through the public process_byte (decoder consumed exactly the byte, error or not); help of a derived two-member command group with the fault at six constant positions",
     "assumptions": CLI_ASSUME + ["handler output is one of: nothing, write_str(\"o\"), writeln_str(\"o\")"],
     "harnesses": cli_keys("cli_fail", FAIL_KEYS, tags=["C14"], timeout=1200, mem=5) + [
     ] + [H("cli_fail::fail_enter_v%d" % v, tags=["C14"], cfg=["vp_h0"], bounds="Enter from ANY editor state with a line of exactly %d bytes (N=3, history buffer of size 0), handler writes nothing / \"o\" / \"o\"+newline, fault at any call position" % v, tier=("both" if v in (0, 2) else "thorough"), timeout=2400, mem=8) for v in range(0, 4)] + [
